@@ -55,6 +55,39 @@ func c18DirectedConfig(name string) *c18Config {
 	case "independent-properties":
 		return c18Cfg("eng", []string{"fra", "spa"}, "spa", stAbsent).set(itM1Text, "spa", stSame).set(itM1Att, "fra", stSame).set(itSetCategory, "fra", stLonger).
 			set(itR1Case1, "spa", stSame).set(itR1CatA, "fra", stSame).set(itR1CatA, "spa", stVariant)
+	// multi-element / whitespace translations with empty elements: non-empty translations by the statement, so the first
+	// preference (spa) wins everywhere although the second preference (fra) has a complete translation
+	case "all-empty-pair-translations":
+		c := c18Cfg("eng", []string{"fra", "spa"}, "spa", stSame).all("spa", stAllEmpty2)
+		c.L0 = "fra"
+		return c
+	case "all-empty-triple-translations":
+		c := c18Cfg("kin", []string{"fra", "spa"}, "spa", stSame).all("spa", stAllEmpty3)
+		c.L0, c.BaseAtt = "fra", 1
+		return c
+	case "all-empty-before-base":
+		c := c18Cfg("eng", []string{"spa"}, "spa", stAbsent).all("spa", stAllEmpty2).set(itR2Case1, "spa", stAllEmpty3).set(itM2QR, "spa", stAllEmpty3)
+		c.L0 = "eng"
+		return c
+	case "first-element-empty-translations":
+		return c18Cfg("eng", []string{"fra", "spa"}, "spa", stSame).all("spa", stEmptyFirst)
+	case "last-element-empty-translations":
+		return c18Cfg("eng", []string{"fra", "spa"}, "spa", stSame).all("spa", stEmptyLast)
+	case "whitespace-translations":
+		return c18Cfg("eng", []string{"fra", "spa"}, "spa", stSame).all("spa", stSpace)
+	case "empty-and-whitespace-translations":
+		return c18Cfg("eng", []string{"fra", "spa"}, "spa", stSame).all("spa", stSpaceMix)
+	case "text-less-all-empty-lists":
+		// text-less messages whose chosen attachments / quick replies are all dropped at evaluation
+		return c18Cfg("eng", []string{"fra", "spa"}, "spa", stAbsent).set(itM1Text, "spa", stAllEmpty2).set(itM1Att, "spa", stAllEmpty2).set(itM1QR, "fra", stSame).
+			set(itM2Text, "spa", stVariant).set(itM2QR, "spa", stAllEmpty2).set(itM2QR, "fra", stSame)
+	case "mixed-empty-shapes":
+		c := c18Cfg("spa", []string{"kin", "eng", "fra"}, "eng", stSame)
+		c.L0 = "kin"
+		for it := 0; it < numItems; it++ {
+			c.set(it, "eng", c18NewStates[it%len(c18NewStates)]).set(it, "kin", c18NewStates[(it+3)%len(c18NewStates)])
+		}
+		return c
 	}
 	return c18Cfg("eng", []string{"eng"}, "", stAbsent)
 }
